@@ -1,4 +1,5 @@
 import AlatorVerif.Lemmas.SizingMore
+import AlatorVerif.Lemmas.FailedIff
 /-!
 # C10 — liquidation queues enough sales to raise the requested cash, or nothing
 -/
@@ -35,6 +36,39 @@ theorem failure_queues_nothing (v : Variant) (b : Brk σ α) (srv : Srv σ α) (
     (hreq : b.cash < req) (h : (withdrawLiq v b srv ks req).1 = .wFail x) :
     (withdrawLiq v b srv ks req).2.1 = b ∧ (withdrawLiq v b srv ks req).2.2 = srv :=
   withdrawLiq_failure_inert v b srv ks req x hreq h
+
+/-- **automatic cash rebalancing** (`check` → `rebalance_cash`): when the balance after booking a tick's
+    trades is negative, `check` runs the same liquidation for `shortfall + 1000`; whenever that liquidation
+    reports success the broker stays Ready, and what `check` leaves behind is exactly the state after sending
+    market sells that, at the last seen bids, are worth at least `shortfall + 1000` -/
+theorem rebalance_raises_enough (b : Brk σ α) (srv : Srv σ α) (adm : List (Order σ α)) (ks : List σ) (x : α)
+    (hready : b.failed = false)
+    (hneg : (afterBooking b srv adm).cash < 0)
+    (hbid : ∀ s q, (afterBooking b srv adm).latest s = some q → 0 < q.bid)
+    (h : (withdrawLiq .repaired (afterBooking b srv adm) (srv.tick adm).2 ks
+            ((afterBooking b srv adm).cash * (-1) + 1000.0)).1 = .wOk x) :
+    ∃ os, (afterBooking b srv adm).cash * (-1) + 1000.0 ≤ worth (afterBooking b srv adm) os
+      ∧ (check .repaired b srv adm ks).1
+          = (sendOrders .repaired (afterBooking b srv adm) (srv.tick adm).2 (os.map (fun o => mkSell o.1 o.2))).1
+      ∧ (check .repaired b srv adm ks).2.1
+          = (sendOrders .repaired (afterBooking b srv adm) (srv.tick adm).2 (os.map (fun o => mkSell o.1 o.2))).2.1
+      ∧ (check .repaired b srv adm ks).1.failed = false := by
+  have hcheck : check .repaired b srv adm ks =
+      (if (afterBooking b srv adm).cash < 0 then
+        let w := withdrawLiq .repaired (afterBooking b srv adm) (srv.tick adm).2 ks ((afterBooking b srv adm).cash * (-1) + 1000.0)
+        match w.1 with
+        | .wFail _ => ({ w.2.1 with failed := true }, w.2.2, false)
+        | .panic => (w.2.1, w.2.2, true)
+        | _ => (w.2.1, w.2.2, false)
+      else (afterBooking b srv adm, (srv.tick adm).2, false)) := rfl
+  obtain ⟨os, _, hworth, h1, h2⟩ := success_raises_enough (afterBooking b srv adm) (srv.tick adm).2 ks _ x hbid h
+  have hb1f : (afterBooking b srv adm).failed = false := by
+    unfold afterBooking; rw [book_fold_failed]; exact hready
+  refine ⟨os, hworth, ?_, ?_, ?_⟩
+  · rw [hcheck, if_pos hneg]; simp only [h]; exact h1
+  · rw [hcheck, if_pos hneg]; simp only [h]; exact h2
+  · rw [hcheck, if_pos hneg]; simp only [h]
+    exact (withdrawLiq_failed .repaired _ _ _ _).trans hb1f
 
 /-- the pinned code (F4) computed `remaining / ceil(bid)` instead of `ceil(remaining / bid)`: with a bid of
     150.5 and 20 000 to raise it queued 20000/151 = 132.45… shares, worth 19 933.77 < 20 000
